@@ -2,6 +2,10 @@ import Swat4.Model.UseCases.Discovery
 import Swat4.Gen.Facts
 import Swat4.Lemmas.C13Run
 import Swat4.Lemmas.C13Exp
+import Swat4.Lemmas.C13Race
+import Swat4.Lemmas.C13Bridge
+import Swat4.Lemmas.C13Exp20
+import Swat4.Lemmas.C13Budget
 /-!
 # C13 — A probe outcome transforms the latest server state and nothing else
 
@@ -662,6 +666,435 @@ entry is the integer part of the real number `e^n` for `n ≤ 5` (`Lemmas/C13Exp
 theorem expFloor_brackets_exp (n : ℕ) (hn : n ≤ 5) :
     ((expFloor (n : Int) : Int) : ℝ) ≤ Real.exp n ∧ Real.exp n < ((expFloor (n : Int) : Int) : ℝ) + 1 :=
   C13Run.expFloor_brackets_exp n hn
+
+/-! ## `hmono` discharged: versions only grow (reviewer W1) -/
+
+/-- `ResStable` is the hypothesis of `exec_version_mono` (`VerMono.ResKeeps`) -/
+theorem resStable_iff (res : Resolver) : ResStable res ↔ VerMono.ResKeeps res := Iff.rfl
+
+/-- the conflict callback of a call leaves address and version alone (`ResStable`); calls without a callback that can
+store a record (`Remove`'s callback only decides) qualify trivially -/
+def CallResStable : {β : Type} → Call β → Prop
+  | _, .addServer _ res => ResStable res
+  | _, .updateServer _ res => ResStable res
+  | _, .updateServerT _ res => ∀ t, ResStable (res t)
+  | _, _ => True
+
+theorem callResStable_iff {β : Type} (c : Call β) : CallResStable c ↔ VerMono.CallStable c := by cases c <;> exact Iff.rfl
+
+/-- **`exec_version_mono` — the premise `hmono` of every race theorem, proved for every repository call of the model.**
+`c` is *any* `Call` (registry `Add`, `Update`, `Update` with clock-reading callback, `Remove`, and all the calls that do not
+write the registry), with any record argument, executed at any clock value on a store whose rows sit under their own keys;
+its conflict callback leaves address and version alone (`CallResStable`; every callback the use cases pass does:
+`usecases_callbacks_stable`).  If the address `a` holds a row before and after the call, the row is unchanged or its version
+is strictly larger.  (`Remove` can make the row disappear — `exec_keeps_row` says only `Remove` can; disappearing and
+re-appearing with a restarted counter takes two calls: `aba_overwrites_fresh_registration`.) -/
+theorem exec_version_mono {β : Type} (c : Call β) (hc : CallResStable c) (s : AbsState) (hk : RowInv.Keyed s) (t : Int)
+    (a : Addr) (before after : SRow)
+    (hb : s.getRow a = some before) (ha : (c.exec s t).1.getRow a = some after) :
+    after.svr.version > before.svr.version ∨ after = before := by
+  rcases (VerMono.exec_rowLe c ((callResStable_iff c).1 hc) s hk t a.key).1 before hb with h | ⟨row', h, hrel⟩
+  · have ha' : (c.exec s t).1.servers[a.key]? = some after := ha
+    rw [h] at ha'; cases ha'
+  · have ha' : (c.exec s t).1.servers[a.key]? = some after := ha
+    rw [h] at ha'; cases ha'
+    rcases hrel with h | h
+    · exact Or.inr h
+    · exact Or.inl h
+
+/-- only a `Remove` makes a row disappear: after any other call a stored address is still stored -/
+theorem exec_keeps_row {β : Type} (c : Call β) (hc : CallResStable c) (hn : VerMono.NoRemove c) (s : AbsState)
+    (hk : RowInv.Keyed s) (t : Int) (a : Addr) (before : SRow) (hb : s.getRow a = some before) :
+    ∃ after, (c.exec s t).1.getRow a = some after ∧ (after.svr.version > before.svr.version ∨ after = before) := by
+  obtain ⟨row', h, hrel⟩ := (VerMono.exec_rowLe c ((callResStable_iff c).1 hc) s hk t a.key).2 hn before hb
+  exact ⟨row', h, hrel.symm.imp id id⟩
+
+/-- **every conflict callback of every use case is stable** — walk over the program trees: whatever the replies, every
+call a use case issues satisfies `CallResStable`; report, keepalive, probe outcome handling, REST submission, refresh,
+revival, instance cleanup and listing moreover never issue a `Remove` (`VerMono.ProgStable`), so along them no row ever
+disappears.  Removal and the two server cleaners do remove (their callbacks are stable all the same). -/
+theorem usecases_callbacks_stable :
+    (∀ z m req, VerMono.ProgStable (UC.report z m req)) ∧
+    (∀ i ip, VerMono.ProgStable (UC.renew i ip)) ∧
+    (∀ prb outcome, VerMono.ProgStable (UC.probe prb outcome)) ∧
+    (∀ z m a, VerMono.ProgStable (UC.addServer z m a)) ∧
+    (∀ m d, VerMono.ProgStable (UC.refresh m d)) ∧
+    (∀ m a b c d e f, VerMono.ProgStable (UC.revive m a b c d e f)) ∧
+    (∀ ret, VerMono.ProgStable (cleanInstances ret)) ∧
+    (∀ l st, VerMono.ProgStable (listServers l st)) ∧
+    (∀ i a, VerMono.ResStableProg (UC.remove i a)) ∧
+    (∀ ret, VerMono.ResStableProg (cleanServers ret)) ∧
+    (∀ ret, VerMono.ResStableProg (cleanServers2 ret)) :=
+  ⟨VerMono.report_stable, VerMono.renew_stable, VerMono.probe_stable, VerMono.addServer_stable, VerMono.refresh_stable,
+   VerMono.revive_stable, VerMono.cleanInstances_stable, VerMono.listServers_stable, VerMono.remove_resStable,
+   VerMono.cleanServers_resStable, VerMono.cleanServers2_resStable⟩
+
+/-- **any program without `Remove`**, run to completion at any clock value: every row is still stored afterwards,
+unchanged or with a strictly larger version (induction over its calls) -/
+theorem prog_version_mono {α : Type} (W : Prog α) (hW : VerMono.ProgStable W) (s : AbsState) (hk : RowInv.Keyed s) (t : Int)
+    (a : Addr) (before : SRow) (hb : s.getRow a = some before) :
+    ∃ after, (W.run s t).1.getRow a = some after ∧ (after.svr.version > before.svr.version ∨ after = before) := by
+  obtain ⟨row', h, hrel⟩ := (VerMono.run_mono hW s t hk).2 a.key before hb
+  exact ⟨row', h, hrel.symm.imp id id⟩
+
+/-! ### the race theorems without `hmono`, for an arbitrary concurrent call -/
+
+theorem rowLe_of {s0 s' : AbsState} {a : Addr} {row0 row' : SRow} (h0 : s0.getRow a = some row0)
+    (h' : s'.servers[a.key]? = some row') (hrel : row' = row0 ∨ row'.svr.version > row0.svr.version) :
+    VerMono.RowLe (s0.servers[a.key]?) (s'.servers[a.key]?) := by
+  intro row hr
+  have h0' : s0.servers[a.key]? = some row0 := h0
+  rw [h0'] at hr; cases hr
+  exact ⟨row', h', hrel⟩
+
+/-- **"whatever else updates the server" — retry.**  The probe's `Get` returned `r0`; then **any** repository call `W` of
+another component commits (any `Call` with a stable callback, at any clock value `tW` — a heartbeat's `Add`, a keepalive's or
+another probe's `Update`, the port discovery's `Update`, a cleaner's or a removal's `Remove`, …); then the probe runs on.
+Either the address still holds a record `w` — then `w` is `r0` or newer (**derived**, no `hmono`) and the final state is
+`W`'s state with `handleRetry goal w`, the retry transformation of the record as `W` left it, stored one version up, plus
+the one re-queued probe, everything else exactly as `W` left it; or `W` removed the record (then `W` is a `Remove`) — the
+retry is queued, the `Update` fails with `ErrServerNotFound` and the registry stays as the remover left it. -/
+theorem probe_retry_race_any {β : Type} (s0 : AbsState) (t0 tW now : Int) (prb : Probe) (r0 : Server) (u0 : Int)
+    (W : Call β) (hW : CallResStable W) (hk : RowInv.Keyed s0)
+    (hrow0 : s0.getRow prb.addr = some ⟨r0, u0⟩) (h : prb.retries < prb.maxRetries) :
+    (∃ (w : Server) (uw : Int), (W.exec s0 tW).1.getRow prb.addr = some ⟨w, uw⟩ ∧ (w.version > r0.version ∨ w = r0) ∧
+      raceRun (probe prb none) 1 t0 W tW now s0 =
+        ({ servers := (W.exec s0 tW).1.servers.insert prb.addr.key ⟨{ handleRetry prb.goal w with version := w.version + 1 }, now⟩,
+           instances := (W.exec s0 tW).1.instances,
+           queue := (W.exec s0 tW).1.queue ++
+             [⟨(W.exec s0 tW).1.nextId, { prb with retries := prb.retries + 1 }, now + second * expFloor (prb.retries + 1), none⟩],
+           nextId := (W.exec s0 tW).1.nextId + 1 }, .retried)) ∨
+    ((W.exec s0 tW).1.getRow prb.addr = none ∧ ¬ VerMono.NoRemove W ∧
+      raceRun (probe prb none) 1 t0 W tW now s0 =
+        ({ servers := (W.exec s0 tW).1.servers, instances := (W.exec s0 tW).1.instances,
+           queue := (W.exec s0 tW).1.queue ++
+             [⟨(W.exec s0 tW).1.nextId, { prb with retries := prb.retries + 1 }, now + second * expFloor (prb.retries + 1), none⟩],
+           nextId := (W.exec s0 tW).1.nextId + 1 }, .error (.repo .serverNotFound))) := by
+  have hWs := (callResStable_iff W).1 hW
+  have hkr : r0.addr.key = prb.addr.key := hk prb.addr.key ⟨r0, u0⟩ hrow0
+  rcases (VerMono.exec_rowLe W hWs s0 hk tW prb.addr.key).1 _ hrow0 with hnone | ⟨row', hrow', hrel⟩
+  · refine Or.inr ⟨hnone, fun hn => ?_, ?_⟩
+    · obtain ⟨row', hrow', _⟩ := (VerMono.exec_rowLe W hWs s0 hk tW prb.addr.key).2 hn _ hrow0
+      rw [hnone] at hrow'; cases hrow'
+    · unfold raceRun
+      rw [probe_step_get s0 t0 prb none r0 u0 hrow0]
+      exact probeRetry_run_removed (W.exec s0 tW).1 now prb r0 (by rw [getRow_key hkr]; exact hnone) h
+  · left
+    have hk2 : RowInv.Keyed (queued (W.exec s0 tW).1 { prb with retries := prb.retries + 1 } (now + second * expFloor (prb.retries + 1))) :=
+      keyed_queued (VerMono.exec_keyed W s0 tW hk) _ _
+    obtain ⟨w, uw, hw, hmono, hrun⟩ := probe_retry_slots s0 t0 now now now prb r0 u0 (fun x => (W.exec x tW).1) id id hk hrow0 h hk2
+      (rowLe_of hrow0 hrow' hrel)
+    refine ⟨w, uw, hw, hmono, ?_⟩
+    rw [raceRun_eq_raceRunL, ← raceRunL_snoc_id [(1, t0, fun x => (W.exec x tW).1)] 1 now,
+      ← raceRunL_snoc_id ([(1, t0, fun x => (W.exec x tW).1)] ++ [(1, now, id)]) 1 now]
+    exact hrun
+
+/-- **"whatever else updates the server" — final failure** (`retries ≥ max`), same history -/
+theorem probe_failure_race_any {β : Type} (s0 : AbsState) (t0 tW now : Int) (prb : Probe) (r0 : Server) (u0 : Int)
+    (W : Call β) (hW : CallResStable W) (hk : RowInv.Keyed s0)
+    (hrow0 : s0.getRow prb.addr = some ⟨r0, u0⟩) (h : prb.retries ≥ prb.maxRetries) :
+    (∃ (w : Server) (uw : Int), (W.exec s0 tW).1.getRow prb.addr = some ⟨w, uw⟩ ∧ (w.version > r0.version ∨ w = r0) ∧
+      raceRun (probe prb none) 1 t0 W tW now s0 =
+        ({ servers := (W.exec s0 tW).1.servers.insert prb.addr.key ⟨{ handleFailure prb.goal w with version := w.version + 1 }, now⟩,
+           instances := (W.exec s0 tW).1.instances, queue := (W.exec s0 tW).1.queue, nextId := (W.exec s0 tW).1.nextId },
+         .outOfRetries)) ∨
+    ((W.exec s0 tW).1.getRow prb.addr = none ∧ ¬ VerMono.NoRemove W ∧
+      raceRun (probe prb none) 1 t0 W tW now s0 = ((W.exec s0 tW).1, .error (.repo .serverNotFound))) := by
+  have hWs := (callResStable_iff W).1 hW
+  have hkr : r0.addr.key = prb.addr.key := hk prb.addr.key ⟨r0, u0⟩ hrow0
+  rcases (VerMono.exec_rowLe W hWs s0 hk tW prb.addr.key).1 _ hrow0 with hnone | ⟨row', hrow', hrel⟩
+  · refine Or.inr ⟨hnone, fun hn => ?_, ?_⟩
+    · obtain ⟨row', hrow', _⟩ := (VerMono.exec_rowLe W hWs s0 hk tW prb.addr.key).2 hn _ hrow0
+      rw [hnone] at hrow'; cases hrow'
+    · unfold raceRun
+      rw [probe_step_get s0 t0 prb none r0 u0 hrow0]
+      simp only
+      rw [probeRetry_final prb r0 h]
+      unfold probeFail
+      simp only [Prog.run_call, exec_updateServer]
+      rw [update_missing_eq _ now _ _ (show (W.exec s0 tW).1.getRow (handleFailure prb.goal r0).addr = none by
+        show (W.exec s0 tW).1.getRow r0.addr = none
+        rw [getRow_key hkr]; exact hnone)]
+      rfl
+  · left
+    obtain ⟨w, uw, hw, hmono, hrun⟩ := probe_failure_slots s0 t0 now prb r0 u0 (fun x => (W.exec x tW).1) hk hrow0 h
+      (VerMono.exec_keyed W s0 tW hk) (rowLe_of hrow0 hrow' hrel)
+    exact ⟨w, uw, hw, hmono, hrun⟩
+
+/-- **"whatever else updates the server" — success**, same history (clock fixed at `now` after `W`'s commit, so both
+`HandleSuccess` calls stamp `now`; `probe_success_race_at` has the placement with two different clock values) -/
+theorem probe_success_race_any {β : Type} (s0 : AbsState) (t0 tW now : Int) (prb : Probe) (res : ProbeResult) (r0 : Server) (u0 : Int)
+    (W : Call β) (hW : CallResStable W) (hk : RowInv.Keyed s0)
+    (hrow0 : s0.getRow prb.addr = some ⟨r0, u0⟩) :
+    (∃ (w : Server) (uw : Int), (W.exec s0 tW).1.getRow prb.addr = some ⟨w, uw⟩ ∧ (w.version > r0.version ∨ w = r0) ∧
+      raceRun (probe prb (some res)) 1 t0 W tW now s0 =
+        ({ servers := (W.exec s0 tW).1.servers.insert prb.addr.key ⟨{ handleSuccess prb.goal res now w with version := w.version + 1 }, now⟩,
+           instances := (W.exec s0 tW).1.instances, queue := (W.exec s0 tW).1.queue, nextId := (W.exec s0 tW).1.nextId },
+         .success)) ∨
+    ((W.exec s0 tW).1.getRow prb.addr = none ∧ ¬ VerMono.NoRemove W ∧
+      raceRun (probe prb (some res)) 1 t0 W tW now s0 = ((W.exec s0 tW).1, .error (.repo .serverNotFound))) := by
+  have hWs := (callResStable_iff W).1 hW
+  have hkr : r0.addr.key = prb.addr.key := hk prb.addr.key ⟨r0, u0⟩ hrow0
+  rcases (VerMono.exec_rowLe W hWs s0 hk tW prb.addr.key).1 _ hrow0 with hnone | ⟨row', hrow', hrel⟩
+  · refine Or.inr ⟨hnone, fun hn => ?_, ?_⟩
+    · obtain ⟨row', hrow', _⟩ := (VerMono.exec_rowLe W hWs s0 hk tW prb.addr.key).2 hn _ hrow0
+      rw [hnone] at hrow'; cases hrow'
+    · unfold raceRun
+      rw [probe_step_get s0 t0 prb (some res) r0 u0 hrow0]
+      simp only [probeSuccessRest, Prog.run_call, exec_now, exec_updateServerT]
+      rw [update_missing_eq _ now _ _ (show (W.exec s0 tW).1.getRow (handleSuccess prb.goal res now r0).addr = none by
+        rw [(handleSuccess_keeps prb.goal res now r0).1, getRow_key hkr]; exact hnone)]
+      rfl
+  · left
+    obtain ⟨w, uw, hw, hmono, hrun⟩ := probe_success_slots s0 t0 now now prb res r0 u0 (fun x => (W.exec x tW).1) id hk hrow0
+      (VerMono.exec_keyed W s0 tW hk) (rowLe_of hrow0 hrow' hrel)
+    refine ⟨w, uw, hw, hmono, ?_⟩
+    rw [raceRun_eq_raceRunL, ← raceRunL_snoc_id [(1, t0, fun x => (W.exec x tW).1)] 1 now]
+    simp only [ite_self] at hrun
+    exact hrun
+
+/-! ### … for an arbitrary activity of the others, at every placement (reviewer: "race placements k = 2 and k = 3") -/
+
+/-- the probe a retry re-queues: the same probe with one more retry -/
+abbrev requeued (prb : Probe) : Probe := { prb with retries := prb.retries + 1 }
+/-- its ready time when the retry delay is counted from clock value `t` -/
+abbrev retryReady (prb : Probe) (t : Int) : Int := t + second * expFloor (prb.retries + 1)
+
+/-- **retry, the others placed after the probe's `k`-th call, `k = 1, 2, 3`** (`Get`; `Get, clock.Now()`; `Get, clock.Now(),
+AddBetween`), the probe's first `k` calls at clock `t0`, the rest at clock `now`.  `F` is *any* activity of the others
+(`Others`: one call, a whole use case, several of them, a `USys` interleaving — anything without `Remove` whose conflict
+callbacks are stable).  `s2` is the state in which the probe's `Update` runs: for `k ≤ 2` the others' state plus the
+re-queued probe, whose delay counts from the clock value the probe read — `now` for `k = 1`, `t0` for `k = 2` (read before
+the others ran); for `k = 3` what the others made of the state that already contained the re-queued probe.  In every case
+`s2` holds a record `w` under the probe's key that is `r0` or newer, and the result is `s2` with `handleRetry goal w` stored
+one version up at update time `now`, nothing else changed. -/
+theorem probe_retry_race_at (k : Nat) (hk13 : 1 ≤ k ∧ k ≤ 3) (s0 : AbsState) (t0 now : Int) (prb : Probe) (r0 : Server) (u0 : Int)
+    (F : AbsState → AbsState) (hF : Others F) (hk : RowInv.Keyed s0)
+    (hrow0 : s0.getRow prb.addr = some ⟨r0, u0⟩) (h : prb.retries < prb.maxRetries) :
+    ∃ (w : Server) (uw : Int),
+      (if k = 3 then F (queued s0 (requeued prb) (retryReady prb t0))
+        else queued (F s0) (requeued prb) (retryReady prb (if k = 1 then now else t0))).getRow prb.addr = some ⟨w, uw⟩ ∧
+      (w.version > r0.version ∨ w = r0) ∧
+      raceRunL (probe prb none) [(k, t0, F)] now s0 =
+        ({ (if k = 3 then F (queued s0 (requeued prb) (retryReady prb t0))
+              else queued (F s0) (requeued prb) (retryReady prb (if k = 1 then now else t0))) with
+            servers := (if k = 3 then F (queued s0 (requeued prb) (retryReady prb t0))
+              else queued (F s0) (requeued prb) (retryReady prb (if k = 1 then now else t0))).servers.insert prb.addr.key ⟨{ handleRetry prb.goal w with version := w.version + 1 }, now⟩ },
+         .retried) := by
+  have hk123 : k = 1 ∨ k = 2 ∨ k = 3 := by omega
+  rcases hk123 with rfl | rfl | rfl
+  · simp only [show ¬ (1 = 3) by decide, if_false, if_true]
+    rw [← raceRunL_snoc_id [(1, t0, F)] 1 now, ← raceRunL_snoc_id ([(1, t0, F)] ++ [(1, now, id)]) 1 now]
+    exact probe_retry_slots s0 t0 now now now prb r0 u0 F id id hk hrow0 h (keyed_queued (hF s0 hk).1 _ _) ((hF s0 hk).2 prb.addr.key)
+  · simp only [show ¬ (2 = 3) by decide, show ¬ (2 = 1) by decide, if_false]
+    rw [raceRunL_split2, ← raceRunL_snoc_id [(1, t0, id), (1, t0, F)] 1 now]
+    exact probe_retry_slots s0 t0 t0 now now prb r0 u0 id F id hk hrow0 h (keyed_queued (hF s0 hk).1 _ _) ((hF s0 hk).2 prb.addr.key)
+  · simp only [if_true]
+    rw [raceRunL_split3]
+    have hq : RowInv.Keyed (queued s0 (requeued prb) (retryReady prb t0)) := keyed_queued hk _ _
+    exact probe_retry_slots s0 t0 t0 t0 now prb r0 u0 id id F hk hrow0 h (hF _ hq).1
+      (((VerMono.Mono.of_servers (s := s0) (s' := queued s0 (requeued prb) (retryReady prb t0)) rfl).trans (hF _ hq).2) prb.addr.key)
+
+/-- **final failure with any activity of the others between `Get` and `Update`** (the failure branch has no other call) -/
+theorem probe_failure_race_others (s0 : AbsState) (t0 now : Int) (prb : Probe) (r0 : Server) (u0 : Int)
+    (F : AbsState → AbsState) (hF : Others F) (hk : RowInv.Keyed s0)
+    (hrow0 : s0.getRow prb.addr = some ⟨r0, u0⟩) (h : prb.retries ≥ prb.maxRetries) :
+    ∃ (w : Server) (uw : Int), (F s0).getRow prb.addr = some ⟨w, uw⟩ ∧ (w.version > r0.version ∨ w = r0) ∧
+      raceRunL (probe prb none) [(1, t0, F)] now s0 =
+        ({ (F s0) with servers := (F s0).servers.insert prb.addr.key ⟨{ handleFailure prb.goal w with version := w.version + 1 }, now⟩ },
+         .outOfRetries) :=
+  probe_failure_slots s0 t0 now prb r0 u0 F hk hrow0 h (hF s0 hk).1 ((hF s0 hk).2 prb.addr.key)
+
+/-- **success, the others placed after the probe's `k`-th call, `k = 1, 2`** (`Get`; `Get, clock.Now()`).  The stored record
+is `HandleSuccess` of the latest record `w`.  Its refresh time: for `k = 1` always `now`; for `k = 2` the probe read the
+clock (`t0`) *before* the others ran, so its own copy is stamped `t0`, and it is the copy that is stored when the others
+left the record alone; when they changed it, the conflict callback re-stamps the latest record with the clock at commit,
+`now`. -/
+theorem probe_success_race_at (k : Nat) (hk12 : 1 ≤ k ∧ k ≤ 2) (s0 : AbsState) (t0 now : Int) (prb : Probe) (res : ProbeResult)
+    (r0 : Server) (u0 : Int) (F : AbsState → AbsState) (hF : Others F) (hk : RowInv.Keyed s0)
+    (hrow0 : s0.getRow prb.addr = some ⟨r0, u0⟩) :
+    ∃ (w : Server) (uw : Int), (F s0).getRow prb.addr = some ⟨w, uw⟩ ∧ (w.version > r0.version ∨ w = r0) ∧
+      raceRunL (probe prb (some res)) [(k, t0, F)] now s0 =
+        ({ (F s0) with servers := (F s0).servers.insert prb.addr.key ⟨{ handleSuccess prb.goal res (if w.version > r0.version then now else if k = 1 then now else t0) w with version := w.version + 1 }, now⟩ },
+         .success) := by
+  have hk12' : k = 1 ∨ k = 2 := by omega
+  rcases hk12' with rfl | rfl
+  · simp only [if_true]
+    rw [← raceRunL_snoc_id [(1, t0, F)] 1 now]
+    exact probe_success_slots s0 t0 now now prb res r0 u0 F id hk hrow0 (hF s0 hk).1 ((hF s0 hk).2 prb.addr.key)
+  · simp only [show ¬ (2 = 1) by decide, if_false]
+    rw [raceRunL_split2]
+    exact probe_success_slots s0 t0 t0 now prb res r0 u0 id F hk hrow0 (hF s0 hk).1 ((hF s0 hk).2 prb.addr.key)
+
+/-- the placements for a single concurrent call `W` in the notation of the earlier theorems: `raceRun … k … W …` is the
+one-slot history with `F = W.exec · tW`, and such an `F` qualifies when `W` is not a `Remove` -/
+theorem raceRun_at_call {α β : Type} (pA : Prog α) (k : Nat) (t0 : Int) (W : Call β) (tW now : Int) (s : AbsState)
+    (hW : CallResStable W) (hn : VerMono.NoRemove W) :
+    raceRun pA k t0 W tW now s = raceRunL pA [(k, t0, fun x => (W.exec x tW).1)] now s ∧ Others (fun x => (W.exec x tW).1) :=
+  ⟨rfl, others_call W ((callResStable_iff W).1 hW) hn tW⟩
+
+/-- … and for a whole use case `W` run to completion at clock `tW` between two calls of the probe (any program without
+`Remove`: heartbeat, keepalive, another probe, REST submission, refresh, revival, listing — `usecases_callbacks_stable`) -/
+theorem others_usecase {γ : Type} (W : Prog γ) (hW : VerMono.ProgStable W) (tW : Int) : Others (fun x => (W.run x tW).1) :=
+  others_run W hW tW
+
+/-- non-vacuity of the `_any` / `_at` theorems: a keyed store holding the probed server; the keepalive's `Update` is a call
+with a stable callback; a whole heartbeat or keepalive use case, and their composition, are activities of "the others" -/
+theorem abaState_keyed : RowInv.Keyed abaState := by
+  intro k row h
+  simp only [abaState, ExtTreeMap.getElem?_insert] at h
+  split at h
+  · rename_i hk
+    cases h
+    have : abaStale.addr.key = k := by simpa using hk
+    exact this
+  · simp at h
+
+example : RowInv.Keyed abaState ∧ abaState.getRow abaStale.addr = some ⟨abaStale, 5⟩ ∧
+    CallResStable (Call.updateServer { abaStale with refreshedAt := some 9 } fun s => some { s with refreshedAt := some 9 }) ∧
+    Others (fun x => ((UC.renew 7 16843009).run x 9).1) ∧
+    Others (fun x => ((UC.report [] 3 ⟨abaStale.addr, 10481, 7, some []⟩).run ((UC.renew 7 16843009).run x 9).1 12).1) :=
+  ⟨abaState_keyed, aba_witness.1, fun s r h => by cases h; exact ⟨rfl, rfl⟩,
+   others_usecase _ (usecases_callbacks_stable.2.1 7 16843009) 9,
+   (others_usecase _ (usecases_callbacks_stable.2.1 7 16843009) 9).comp (others_usecase _ (usecases_callbacks_stable.1 [] 3 _) 12)⟩
+
+/-- instance of `probe_retry_race_any` with **no** version hypothesis: the keepalive's `Update` commits between the probe's
+`Get` and its retry; the stored record carries both the keepalive's refresh time and the retry mark -/
+example : ∃ (w : Server) (uw : Int),
+    ((Call.updateServer { abaStale with refreshedAt := some 9 } fun s => some { s with refreshedAt := some 9 }).exec abaState 9).1.getRow abaStale.addr
+      = some ⟨w, uw⟩ ∧ (w.version > abaStale.version ∨ w = abaStale) := by
+  rcases probe_retry_race_any abaState 8 9 10 ⟨abaStale.addr, 10481, .details, 0, 2⟩ abaStale 5
+    (Call.updateServer { abaStale with refreshedAt := some 9 } fun s => some { s with refreshedAt := some 9 })
+    (fun s r h => by cases h; exact ⟨rfl, rfl⟩) abaState_keyed aba_witness.1 (by decide) with ⟨w, uw, hw, hm, _⟩ | ⟨hn, hrem, _⟩
+  · exact ⟨w, uw, hw, hm⟩
+  · exact absurd trivial hrem
+
+/-! ### the system model the driver replays (`USys`) against the `Prog`-level histories (reviewer W1, second half)
+
+`Lemmas/C13Bridge.lean`: `C13Run.usys_retry_bridge` (any `USys`, any events of the other clients and ticks between the
+probe's three scheduled calls: the store is that of a `raceRunL` history in which `Get` **and** the clock read happen at the
+clock value of the first step), `C13Run.usys_probe_retry_any` (explicit result when the others never `Remove`),
+`C13Run.usys_two_clients_retry` (two clients, schedule of `raceRun`, any ticks: `= raceRun … 2 …`) and
+`C13Run.usys_two_clients_retry_iff` (`= raceRun … 1 …`, the history of `probe_retry_race`, **iff** no tick separates the
+calls).  Below: the no-tick bridge in the notation of `probe_retry_race`, with the hypothesis explicit. -/
+
+/-- **bridge, no tick in between.**  Two clients in the system model — the probe and a client whose only call is `W` —
+scheduled "probe's `Get`, `W`, probe's `AddBetween`, probe's `Update`" with **no clock tick in between** (`d1 = d2 = d3 = 0`
+in `raceSchedule`): the final store is exactly that of `raceRun (probe prb none) 1 t W tW t`, the history the `probe_*_race`
+theorems speak about.  (`usys_two_clients_retry_iff`: with a tick in between it is not — the retry delay then counts from
+the clock value at the `Get`.) -/
+theorem usys_matches_raceRun_no_tick {β : Type} (s0 : AbsState) (t : Int) (prb : Probe) (g : ProbeEnd → String) (W : Call β)
+    (gW : β → String) (aW : Int) (r0 : Server) (u0 : Int)
+    (hrow0 : s0.getRow prb.addr = some ⟨r0, u0⟩) (h : prb.retries < prb.maxRetries) :
+    ((twoClients s0 t prb g W gW aW).run (raceSchedule 0 0 0)).abs =
+      (raceRun (probe prb none) 1 t W (wClock W aW t) t s0).1 := by
+  have := (usys_two_clients_retry_iff s0 t prb g W gW aW 0 0 0 r0 u0 hrow0 h ⟨Int.le_refl _, Int.le_refl _, Int.le_refl _⟩).2 ⟨rfl, rfl, rfl⟩
+  simp only [Int.add_zero] at this
+  exact this
+
+/-- the hypothesis "no tick in between" holds in a concrete run, and a run with a tick (5 s between the probe's `Get` and
+the keepalive's `Update`) differs from the `raceRun … 1` history in the ready time of the re-queued probe: the system model
+(and the real use case, which reads the clock right after `Get`) counts the delay from clock 100, `raceRun … 1` from 105 -/
+example :
+    let prb : Probe := ⟨abaStale.addr, 10481, .details, 0, 2⟩
+    let W := Call.updateServer { abaStale with refreshedAt := some 9 } fun s => some { s with refreshedAt := some 9 }
+    ((twoClients abaState 100 prb (fun _ => "") W (fun _ => "") 0).run (raceSchedule 0 0 0)).abs =
+        (raceRun (probe prb none) 1 100 W 100 100 abaState).1 ∧
+    ((twoClients abaState 100 prb (fun _ => "") W (fun _ => "") 0).run (raceSchedule 5 0 0)).abs ≠
+        (raceRun (probe prb none) 1 100 W 105 105 abaState).1 := by
+  intro prb W
+  refine ⟨usys_matches_raceRun_no_tick abaState 100 prb _ W _ 0 abaStale 5 aba_witness.1 (by decide), ?_⟩
+  intro heq
+  have := (usys_two_clients_retry_iff abaState 100 prb (fun _ => "") W (fun _ => "") 0 5 0 0 abaStale 5 aba_witness.1 (by decide)
+    ⟨by decide, by decide, by decide⟩).1 (by simpa [wClock, Call.clockAtArrival] using heq)
+  exact absurd this.1 (by decide)
+
+/-- non-vacuity of `usys_probe_retry_any`: the two-client system of `twoClients` — its second client (one `Update` with a
+stable callback) is `ProgStable`, the store is keyed and holds the probed server, the probe has budget left -/
+example :
+    let prb : Probe := ⟨abaStale.addr, 10481, .details, 0, 2⟩
+    let W := Call.updateServer { abaStale with refreshedAt := some 9 } fun s => some { s with refreshedAt := some 9 }
+    let u := twoClients abaState 100 prb (fun _ => "") W (fun _ => "") 0
+    (∃ c, u.clients[0]? = some c ∧ c.prog = rendered (probe prb none) (fun _ => "") ∧ c.started = true ∧ c.dead = false) ∧
+    u.abs.getRow prb.addr = some ⟨abaStale, 5⟩ ∧ prb.retries < prb.maxRetries ∧ RowInv.Keyed u.abs ∧
+    (∀ (j : Nat) (c' : UClient), j ≠ 0 → u.clients[j]? = some c' → VerMono.ProgStable c'.prog) := by
+  intro prb W u
+  refine ⟨⟨_, rfl, rfl, rfl, rfl⟩, aba_witness.1, by decide, abaState_keyed, ?_⟩
+  intro j c' hj hc'
+  match j, hj with
+  | 1, _ =>
+    have : c' = { prog := .call W fun b => .ret ((fun _ => "") b), started := true, arrival := 0 } := by
+      simp only [u, twoClients, List.getElem?_cons_succ, List.getElem?_cons_zero, Option.some.injEq] at hc'; exact hc'.symm
+    subst this
+    exact VerMono.AllCalls.call _ _ ⟨fun s r h => by cases h; exact ⟨rfl, rfl⟩, trivial⟩ fun _ => VerMono.AllCalls.ret _
+  | j + 2, _ => simp [u, twoClients] at hc'
+
+/-- the success and final-failure branches in the system model (two scheduled calls each): `C13Run.usys_two_clients_success`
+(`= raceRun (probe prb (some res)) 2 …` for any ticks: the probe's own copy is stamped with the clock value at its `Get`, the
+conflict callback with the one at commit) and `C13Run.usys_two_clients_failure` (`= raceRun (probe prb none) 1 …` for any
+ticks: the failure branch reads no clock).  With no tick in between, the success run is the history of `probe_success_race`: -/
+theorem usys_success_matches_raceRun_no_tick {β : Type} (s0 : AbsState) (t : Int) (prb : Probe) (res : ProbeResult)
+    (g : ProbeEnd → String) (W : Call β) (gW : β → String) (aW : Int) (r0 : Server) (u0 : Int)
+    (hrow0 : s0.getRow prb.addr = some ⟨r0, u0⟩) :
+    ((twoClientsO s0 t prb (some res) g W gW aW).run (raceSchedule2 0 0)).abs =
+      (raceRun (probe prb (some res)) 1 t W (wClock W aW t) t s0).1 := by
+  have := usys_two_clients_success s0 t prb res g W gW aW 0 0 r0 u0 hrow0
+  simp only [Int.add_zero] at this
+  rw [this, raceRun_success_two_eq_one s0 t _ prb res r0 u0 W hrow0]
+
+/-! ## the retry delay table and its scope (reviewer W5) -/
+
+/-- **scope of the delay table made explicit: within it, the model is `⌊e^n⌋`.**  For every `n ≤ 20` the model's `expFloor n`
+is the integer part of the real number `e^n` (`Lemmas/C13Exp20.lean`, from Mathlib's `|e − 363916618873/133877442384| ≤ 10⁻²⁰`;
+no floating point).  Extends `expFloor_brackets_exp` (`n ≤ 5`) to the whole table. -/
+theorem expFloor_in_scope (n : ℕ) (hn : n ≤ 20) : expFloor (n : Int) = ⌊Real.exp n⌋ := C13Run.expFloor_eq_floor_exp20 n hn
+
+/-- **… and beyond it, it is not**: for `n > 20` the model's `expFloor n` is `0` ("ready immediately") whereas `⌊e^n⌋ ≥ 1`
+(Go: about `e^21` s).  Retry budgets above 20 are outside the model; the driver reports such a case as unmodelled. -/
+theorem expFloor_out_of_scope (n : ℕ) (hn : 20 < n) : expFloor (n : Int) = 0 ∧ expFloor (n : Int) ≠ ⌊Real.exp n⌋ := by
+  have h0 : expFloor (n : Int) = 0 := C13Run.expFloor_beyond n (by omega)
+  refine ⟨h0, ?_⟩
+  rw [h0]
+  have : (1 : Int) ≤ ⌊Real.exp n⌋ := Int.le_floor.2 (by simpa using Real.one_le_exp (Nat.cast_nonneg n))
+  omega
+
+/-- **every probe the use cases enqueue is within its retry budget** (`0 ≤ retries ≤ maxRetries`): walk over the program
+trees — the port-discovery probe of a heartbeat / REST submission and the probes of refresh and revival start at `0` (the
+configured maxima must be `≥ 0`); what `probeserver.Execute` re-queues has `retries + 1 ≤ maxRetries` because `IncRetries`
+refuses at `retries ≥ maxRetries` (for a probe that itself has `0 ≤ retries`). -/
+theorem usecases_enqueue_within_budget :
+    (∀ z m req, 0 ≤ m → VerMono.AllCalls (fun c => C13Budget.EnqOK c) (UC.report z m req)) ∧
+    (∀ prb outcome, 0 ≤ prb.retries → VerMono.AllCalls (fun c => C13Budget.EnqOK c) (UC.probe prb outcome)) ∧
+    (∀ z m a, 0 ≤ m → VerMono.AllCalls (fun c => C13Budget.EnqOK c) (UC.addServer z m a)) ∧
+    (∀ m d, 0 ≤ m → VerMono.AllCalls (fun c => C13Budget.EnqOK c) (UC.refresh m d)) ∧
+    (∀ m a b c d e f, 0 ≤ m → VerMono.AllCalls (fun c => C13Budget.EnqOK c) (UC.revive m a b c d e f)) :=
+  ⟨fun z m req hm => C13Budget.report_enq z m hm req, fun prb o h0 => C13Budget.probe_enq prb h0 o,
+   fun z m a hm => C13Budget.addServer_enq z m hm a, fun m d hm => C13Budget.refresh_enq m hm d,
+   fun m a b c d e f hm => C13Budget.revive_enq m hm a b c d e f⟩
+
+/-- **invariant: every queued probe has `0 ≤ retries ≤ maxRetries`** — kept by every repository call whose `AddBetween`
+enqueues a probe within its budget (`PopMany` only removes, and hands out what was queued), hence by every interleaving of
+such clients in the system model: calls, crashes, faults with or without effect, clock ticks. -/
+theorem queued_within_budget (u : USys) (es : List UEv) (hes : ∀ e ∈ es, USysInd.EvOK (fun _ => True) e)
+    (h : C13Budget.QueueOK u.abs) (hcl : ∀ c ∈ u.clients, VerMono.AllCalls (fun c => C13Budget.EnqOK c) c.prog) :
+    ∀ q ∈ (u.run es).abs.queue, 0 ≤ q.probe.retries ∧ q.probe.retries ≤ q.probe.maxRetries :=
+  C13Budget.usys_queueOK u es hes h hcl
+
+/-- hence, when the configured maxima are at most 20, the delay of every retry of a queued probe is in the table's scope:
+`second · ⌊e^(retries+1)⌋` with the mathematical floor -/
+theorem retry_delay_in_scope (p : Probe) (h : 0 ≤ p.retries ∧ p.retries ≤ p.maxRetries) (hlt : p.retries < p.maxRetries)
+    (hmax : p.maxRetries ≤ 20) : expFloor (p.retries + 1) = ⌊Real.exp ((p.retries + 1).toNat : ℕ)⌋ := by
+  have h1 : ((p.retries + 1).toNat : Int) = p.retries + 1 := Int.toNat_of_nonneg (by omega)
+  have := expFloor_in_scope (p.retries + 1).toNat (by omega)
+  rw [h1] at this
+  exact this
+
+/-- non-vacuity: the empty queue satisfies the invariant; a probe at `retries = 4` of `5` is re-queued at 5 with delay
+`⌊e^5⌋ = 148` s -/
+example : C13Budget.QueueOK {} ∧ expFloor ((4 : Int) + 1) = 148 ∧ (148 : Int) = ⌊Real.exp ((5 : ℕ) : ℝ)⌋ :=
+  ⟨fun q hq => by simp at hq, by decide, by
+    have := expFloor_in_scope 5 (by decide)
+    rw [← this]; decide⟩
 
 /-- the nine status bits and their names are the ones of `ds.Members()` / `BitString()` in the source
 (regenerated `Gen/Facts.lean`) -/
